@@ -72,8 +72,9 @@ def c07(sink, cfg, tl, data, P, V, affine, mode, uni2tex=None):
         return
     ok("axis-line-spans-the-full-length", P["axis"] == ("x" if horiz(d) else "y", str(LEN)), info=str(P["axis"]))
     seen = set()
-    pad_along = PAD["left"] + PAD["right"]
-    pad_across = PAD["top"] + PAD["bottom"]
+    pad = cfg.get("padding") or PAD
+    pad_along = pad["left"] + pad["right"]
+    pad_across = pad["top"] + pad["bottom"]
     for i in range(n):
         j = datum_index(tl, data, i)
         ok("every-drawn-item-belongs-to-one-datum", j is not None and j not in seen, info="item %d" % i)
